@@ -22,8 +22,8 @@ RULE = ("all sequences of <=k operations from the write alphabet (assignment of 
 ASSUMPTIONS = ["retraction is outside the statement: relations of elements that left the field are not required to "
                "disappear; only presence of the consequences of CURRENT elements is checked",
                "entries may be stored as weak references (inferred ones); they are unwrapped before comparison"]
-BOUNDS = {"quick": {"seq_len": 2, "seq_len_core_ops": 3, "inferred_prefix_len": 2},
-          "thorough": {"seq_len": 3, "inferred_prefix_len": 3}}
+BOUNDS = {"quick": {"seq_len": 2, "seq_len_core_ops": 3, "inferred_prefix_len": 2, "tlist_seq_len": 2},
+          "thorough": {"seq_len": 3, "inferred_prefix_len": 3, "tlist_seq_len": 3}}
 CHUNK = 150
 RECYCLE_CHUNKS = 10
 BUDGET_S = {"quick": 900, "thorough": 6000}
@@ -67,6 +67,15 @@ INF_LIST_PREFIX = ([("setitem", 0, e) for e in E] + [("setitem", -1, 2), ("setsl
                    ("iadd", (1,)), ("pop",), ("remove_first",), ("del_first",), ("clear_method",)])
 INF_SET_PREFIX = [("add", 1), ("update", (0, 1)), ("assign", (1,)), ("assign", (1, 0)), ("assign", ()), ("assign_self",),
                   ("ior", (1,)), ("discard_first",), ("remove_first",), ("clear_method",)]
+# "tlist" family: a list field whose own inferences append to it (transitive sub_organization_of): U = [c0, c1, c2, x0, x1]
+# with c2 < c1 < c0 asserted beforehand, so writing c2 infers c1 and c0 into the same list while the write is under way
+TLIST_OPS = ([("setitem", 0, e) for e in (0, 1, 2)] + [("setitem", -1, 2), ("setitem", -1, 1), ("setitem", 1, 2)]
+             + [("insert", 0, 2), ("insert", 0, 1), ("insert", -1, 2), ("insert", -1, 1), ("insert", 1, 2)]
+             + [("setslice", (0, 1), (1, 2)), ("setslice", (1, 3), (2,)), ("setslice", (0, 0), (2,)), ("setslice_gen", (0, 1), (2,))]
+             + [("append", 2), ("append", 1), ("append", 3), ("assign", (2,)), ("assign", (4, 1)), ("iadd", (2,)), ("extend", (1,)),
+                ("bad_setitem", 7, 2), ("bad_setslice_step", 2)])
+TLIST_INIT = [(), (3,), (3, 4), (1,)]
+ANCESTORS = {0: (), 1: (0,), 2: (1, 0), 3: (), 4: ()}
 FINAL_LIST = ("append", "extend", "iadd", "iadd_alias", "assign_concat", "insert_end", "setslice_end")
 FINAL_SET = ("add", "update", "ior", "ior_alias", "assign_union")
 ADDITIVE = {"append", "extend", "extend_gen", "extend_tuple", "extend_self", "extend_itself", "insert", "insert_end", "iadd",
@@ -99,6 +108,10 @@ def cases(tier, seed):
                 for seq in itertools.product(prefix_ops, repeat=k):
                     for e in (2, 0):
                         out.append((field, init, "inferred", seq + (("final", e),)))
+    for init in TLIST_INIT:
+        for k in range(1, b["tlist_seq_len"] + 1):
+            for seq in itertools.product(TLIST_OPS, repeat=k):
+                out.append(("tlist", init, "append", seq))
     return list(dict.fromkeys(out))
 
 
@@ -142,7 +155,13 @@ class World:
         O = _ONTO
         O.reset_graph()
         self.field = field
-        if field == "list":
+        if field == "tlist":
+            self.owner = O.VCompany("owner")
+            self.univ = [O.VCompany(n) for n in ("c0", "c1", "c2", "x0", "x1")]
+            self.univ[1].sub_organization_of.append(self.univ[0])
+            self.univ[2].sub_organization_of.append(self.univ[1])
+            self.fname = "sub_organization_of"
+        elif field == "list":
             self.owner = O.VPerson("owner")
             self.univ = [O.VCompany(f"c{i}") for i in E] + [O.VCompany("c0")]  # index 3: twin of c0 (==, same hash)
             self.univ.append(O.VQuietCompany("quiet"))  # index 4: an element whose truth value is False
@@ -181,11 +200,11 @@ class World:
             setattr(self.owner, self.fname, list(vals) if field == "list" else set(vals))
         else:
             for v in vals:
-                if field == "list":
+                if field in ("list", "tlist"):
                     getattr(self.owner, self.fname).append(v)
                 else:
                     getattr(self.owner, self.fname).add(v)
-        self.model = list(vals) if field == "list" else set(vals)
+        self.model = list(vals) if field in ("list", "tlist") else set(vals)
         self.names = {id(o): repr(o) for o in [self.owner] + self.univ + self.other}
         self.names[id(self.univ[3])] = repr(self.univ[3]) + "'"
 
@@ -203,8 +222,19 @@ class World:
         m = self.model
         o, n = self.owner, self.fname
         vals = [U[i] for i in op[1]] if len(op) > 1 and isinstance(op[1], tuple) else None
-        if self.field == "list":
-            if k == "assign":
+        if self.field in ("list", "tlist"):
+            if k == "bad_setitem":
+                # a write that a list rejects: nothing may change, nothing may be recorded
+                try:
+                    f()[op[1]] = U[op[2]]
+                except IndexError:
+                    pass
+            elif k == "bad_setslice_step":
+                try:
+                    f()[::2] = [U[op[1]]] * (len(m) // 2 + 2)
+                except ValueError:
+                    pass
+            elif k == "assign":
                 setattr(o, n, list(vals)); self.model = list(vals)
             elif k == "assign_gen":
                 setattr(o, n, (v for v in vals)); self.model = list(vals)
@@ -418,10 +448,81 @@ def run_inferred_case(case):
     return res
 
 
+def run_tlist_case(case):
+    """
+    The field's own inferences append to it. After every operation: the explicitly written elements are there in the order
+    Python gives them (a subsequence of the field), everything else in the field is an ancestor of something that was
+    written (once), every ancestor of a CURRENT element is in the field, and the graph relates the owner to nothing else.
+    """
+    field, init, how, seq = case
+    res = CaseResult()
+    w = World(field, init, how)
+    U = w.univ
+    idx = {id(u): i for i, u in enumerate(U)}
+    ever = set(init)
+    states = []
+    for i, op in enumerate(seq):
+        # positions refer to the whole list, inferred entries included: the reference is Python's list operation applied
+        # to the contents the field had before the operation
+        before = [idx[id(x)] for x in w.contents()]
+        w.model = list(w.contents())
+        if op[0] == "setitem" and not -len(before) <= op[1] < len(before):
+            continue
+        try:
+            w.apply(op)
+        except Exception as e:
+            res.failures.append(Failure("crash", f"transitive list field from {init}: {seq[:i + 1]}: {type(e).__name__}: {e}"))
+            break
+        res.transitions += 1
+        ever_before = set(ever) | set(before)
+        ever |= set(before) | {idx[id(x)] for x in w.model}
+        got = [idx[id(x)] for x in w.contents()]
+        model = [idx[id(x)] for x in w.model]
+        inferable = {a for e in ever for a in ANCESTORS[e]}
+        written = list(model)
+        for x in before:
+            if x in written:
+                written.remove(x)
+        it = iter(got)
+        in_order = all(any(x == y for y in it) for x in model)
+        extras = list(got)
+        for x in model:
+            if x in extras:
+                extras.remove(x)
+        # an ancestor that was part of the field before is related to the owner already (nothing is ever retracted from the
+        # graph), so it is not inferred again: if it left the field, by this operation or an earlier one, it stays away
+        wanted = {a for e in written for a in ANCESTORS[e] if a not in ever_before} | set(model)
+        related = {idx[t] for s_, f_, t in w.graph_facts() if s_ == id(w.owner) and f_ == w.fname and t in idx}
+        name = lambda xs: [repr(U[j]) for j in xs]
+        states.append((tuple(got), len(related)))
+        problem = None
+        if not in_order:
+            problem = f"the written elements {name(model)} are not there in this order"
+        elif not set(extras) <= inferable or len(set(extras)) != len(extras) or set(extras) & set(model):
+            problem = f"besides the written elements {name(model)} it holds {name(extras)}, inferable are only {name(sorted(inferable))}"
+        elif not wanted <= set(got):
+            problem = f"it lacks {name(sorted(wanted - set(got)))} (ancestors of the elements written by this operation, {name(written)})"
+        elif not related <= ever | inferable:
+            problem = f"the graph relates the owner to {name(sorted(related - ever - inferable))}, which was never part of the field"
+        elif not wanted <= related:
+            problem = f"the graph lacks the relations to {name(sorted(wanted - related))}"
+        if problem:
+            res.failures.append(Failure("wrong-contents", f"transitive list field (c2 < c1 < c0) from {name(init)} after {seq[:i + 1]}: "
+                                                          f"the field was {name(before)} and is {name(got)}: {problem}", case=(field, init, how, tuple(seq[:i + 1]))))
+            break
+    res.states = states
+    res.outcome_key = tuple(states[-1:])
+    res.nontrivial_key = case
+    res.features = [f"tlist:{op[0]}" for op in seq] + [f"init:tlist:{len(init)}"]
+    return res
+
+
 def run_case(case):
     field, init, how, seq = case
     if how == "inferred":
         return run_inferred_case(case)
+    if field == "tlist":
+        return run_tlist_case(case)
     res = CaseResult()
     try:
         w = World(field, init, how)
@@ -490,7 +591,7 @@ def run_case(case):
 
 def finish(run):
     if run.exhaustive and not run.failures:
-        for k in ("inferred:list:setitem", "inferred:list:pop", "inferred:set:discard_first", "list:setitem", "list:setslice", "list:setslice_gen", "list:setslice_self", "list:extend_gen", "set:update_gen", "set:ior", "list:iadd", "list:assign_self"):
+        for k in ("tlist:setitem", "tlist:insert", "tlist:setslice", "tlist:bad_setitem", "inferred:list:setitem", "inferred:list:pop", "inferred:set:discard_first", "list:setitem", "list:setslice", "list:setslice_gen", "list:setslice_self", "list:extend_gen", "set:update_gen", "set:ior", "list:iadd", "list:assign_self"):
             if not run.features.get(k):
                 raise HarnessError(f"vacuous: {k} never exercised")
 
@@ -553,7 +654,23 @@ def _m_setslice_value_as_one_item():
     M.MonitoredList.__setitem__ = setitem
 
 
-MUTANTS = {"setslice_value_as_one_item": _m_setslice_value_as_one_item, "extend_plain": _m_extend_plain, "setitem_no_on_add": _m_setitem_no_on_add, "extend_twice": _m_extend_twice,
+def _m_hook_before_positional_write():
+    # before the C16-F8 fix: the item is recorded first, then written at a position that may be stale by then
+    from krrood.ontomatic.property_descriptor import monitored_container as M
+    def setitem(self, idx, value):
+        if isinstance(idx, slice):
+            value = [self._on_add(item) for item in list(value)]
+        else:
+            value = self._on_add(value)
+        list.__setitem__(self, idx, value)
+    def insert(self, idx, item):
+        item = self._on_add(item)
+        list.insert(self, idx, item)
+    M.MonitoredList.__setitem__ = setitem
+    M.MonitoredList.insert = insert
+
+
+MUTANTS = {"hook_before_positional_write": _m_hook_before_positional_write, "setslice_value_as_one_item": _m_setslice_value_as_one_item, "extend_plain": _m_extend_plain, "setitem_no_on_add": _m_setitem_no_on_add, "extend_twice": _m_extend_twice,
            "update_skips": _m_update_skips_existing_relation}
 
 
